@@ -12,6 +12,7 @@ import YaegiVerif.Generated.C07
       FORM  = const | other      (constants are converted to the parameter type callBin picks)
       PKIND = concrete | empty | host
       ctx   = (assign B0 B1 …) | (ret POS) | (deflt)
+   reenter DEPTH CLOSURE           → y=<ok|bad:shared-frame> g=ok   (one wrapper value, nested invocations)
    wrap NUMRET NPARAMS CLOSURE     → y=<ok|bad:…> g=ok   (the MakeFunc wrapper against the in-script call, on probe frames) -/
 namespace YaegiVerif.Driver.C07
 open YaegiVerif YaegiVerif.Boundary
@@ -199,6 +200,12 @@ def handleWrap (numRet nParams : Nat) (closure : Bool) : String :=
   let want := innerCall d noCall ins
   if w == want then "y=ok g=ok" else "y=bad:wrapper-results g=ok"
 
+/-- a stored callback re-entering itself through the host, `depth` levels deep: the model run with the regenerated fact -/
+def handleReenter (depth : Nat) (closure : Bool) : String :=
+  let levels := (List.range (depth + 1)).reverse.map fun n => [Rep.int (Int.ofNat n)]
+  let per := if closure then G.getFuncFramePerCall else G.wrapFramePerCall
+  if (runLevels per sumFn levels []).1 == specLevels sumFn levels then "y=ok g=ok" else "y=bad:shared-frame g=ok"
+
 instance : BEq Ctx := ⟨fun a b => decide (a = b)⟩
 
 def handle (args : List Sexp) : String :=
@@ -209,6 +216,10 @@ def handle (args : List Sexp) : String :=
      | some hr, some ri, some rs, some iv, some el, some df, some ps, some as, some c, some n =>
        handleCall hr ri rs iv el df ps ve as c n
      | _, _, _, _, _, _, _, _, _, _ => "bad-op")
+  | [.atom "reenter", dp, cl] =>
+    (match dp.nat?, cl.bool? with
+     | some dp, some cl => handleReenter dp cl
+     | _, _ => "bad-op")
   | [.atom "wrap", nr, np, cl] =>
     (match nr.nat?, np.nat?, cl.bool? with
      | some nr, some np, some cl => handleWrap nr np cl
